@@ -4,3 +4,4 @@ import LettreVerif.Props.C02
 #print axioms LV.C02.section_read_back
 #print axioms LV.C02.headers_read_back
 #print axioms LV.C02.names_stay_unique
+#print axioms LV.C02.plain_value_unfolds_to_itself
